@@ -963,8 +963,8 @@ impl Stdfs {
     /// assert_vfs_remove_all!(vfs, &tmpdir);
     /// ```
     pub fn is_symlink<T: AsRef<Path>>(path: T) -> bool {
-        match StdfsEntry::from(path) {
-            Ok(x) => x.is_symlink(),
+        match Stdfs::abs(path).and_then(|x| Ok(fs::symlink_metadata(x)?)) {
+            Ok(x) => x.file_type().is_symlink(),
             _ => false,
         }
     }
